@@ -1,8 +1,10 @@
 import PyxisVerif.Lemmas.Parser
+import PyxisVerif.Lemmas.Lexer
 /-!
 # C18 – parsing is the inverse of printing
 
-Property theorems only; helper lemmas live in `Lemmas/Parser.lean`.
+Property theorems only; helper lemmas live in `Lemmas/Parser.lean` (token level) and
+`Lemmas/Lexer.lean` (character level).
 
 `Parse.parseStr` is the model of `parser::parse_str` (`Model/Lexer.lean`: the `proc_macro2`
 fallback lexer and `syn`'s literal decoding; `Model/Parser.lean`: `src/parser/mod.rs` node for
@@ -82,5 +84,61 @@ theorem parse_print_tokens (m : G.Module) (h : WF m) :
 
 example : Parse.parseModule (Print.printModule exampleModule) = .ok exampleModule :=
   parse_print_tokens exampleModule (by decide)
+
+/-! ## integers keep their value, however they are spelled
+
+`Spelling b cs` (`Lemmas/Lexer.lean`): `cs` consists of digits of base `b` (either case for hex
+letters) and `_` separators, has at least one digit, and a decimal number starts with a digit.
+`digitsVal r 0 cs` is the positional value of the digits, `_` skipped.  `b.pre` is the base
+prefix (nothing, `0x`, `0o`, `0b`). -/
+
+/-- **C18, numbers.**  Any spelling of a number, in any base, with any `_` separators, is read
+    as one integer token whose value is the positional value of its digits. -/
+theorem int_value (b : Base) (cs : List Char) (h : Spelling b cs) :
+    Lex.lex (String.ofList (b.pre ++ cs)) = .ok [⟨.int (digitsVal b.radix 0 cs), (1, 0)⟩] := by
+  simp only [Lex.lex, String.toList_ofList]
+  exact lexL_int b cs h
+
+/-- the same inside a longer text: whatever follows, as long as it cannot continue the number
+    (no identifier character, which would be more digits or a suffix, and no `.`) -/
+theorem int_value_in_context (b : Base) (cs : List Char) (h : Spelling b cs) (tail : List Char)
+    (ht : IntTail tail) :
+    Lex.lexLeaf (b.pre ++ cs ++ tail) = some (.int (digitsVal b.radix 0 cs), tail) :=
+  lexLeaf_int b cs h tail ht
+
+/-- the canonical digits of `n` in any base are a spelling of `n` … -/
+theorem int_value_canonical (b : Base) (n : Nat) :
+    Spelling b (numChars b.radix n) ∧ digitsVal b.radix 0 (numChars b.radix n) = n :=
+  ⟨numChars_spelling b n, digitsVal_numChars b.radix n (by cases b <;> simp [Base.radix])
+    (by cases b <;> simp [Base.radix])⟩
+
+/-- … and `_` separators, wherever they stand, do not change the value -/
+theorem int_value_separators (r : Nat) (cs : List Char) :
+    digitsVal r 0 (cs.filter (fun c => !decide (c = '_'))) = digitsVal r 0 cs :=
+  digitsVal_filter r 0 cs
+
+/-- two spellings of the same number, in whatever bases, are the same token -/
+theorem int_value_same (b₁ b₂ : Base) (cs₁ cs₂ : List Char) (h₁ : Spelling b₁ cs₁)
+    (h₂ : Spelling b₂ cs₂) (hv : digitsVal b₁.radix 0 cs₁ = digitsVal b₂.radix 0 cs₂) :
+    Lex.lex (String.ofList (b₁.pre ++ cs₁)) = Lex.lex (String.ofList (b₂.pre ++ cs₂)) := by
+  rw [int_value b₁ cs₁ h₁, int_value b₂ cs₂ h₂, hv]
+
+example : Lex.lex "0x_1_F" = .ok [⟨.int 31, (1, 0)⟩] :=
+  int_value .hex ['_', '1', '_', 'F'] (spelling_of_B _ _ (by decide))
+
+example : Lex.lex "1_000" = Lex.lex "0b11_1110_1000" :=
+  int_value_same .dec .bin ['1', '_', '0', '0', '0']
+    ['1', '1', '_', '1', '1', '1', '0', '_', '1', '0', '0', '0']
+    (spelling_of_B _ _ (by decide)) (spelling_of_B _ _ (by decide)) (by decide)
+
+/-! ## rejected text is rejected with a position inside the text -/
+
+/-- **C18, errors.**  Whenever the parser rejects a text, the reported line lies inside the text:
+    between 1 and the number of line breaks + 1 (so at most "number of lines + 1"). -/
+theorem parse_error_has_position (s : String) (l c : Nat) (h : Parse.parseStr s = .error (l, c)) :
+    1 ≤ l ∧ l ≤ s.toList.count '\n' + 1 :=
+  parseStr_error_ok s (l, c) h
+
+example : Parse.parseStr "type A {\n  x: u8,\n  y: ,\n}" = .error (3, 5) := by rfl
 
 end PyxisVerif.C18
